@@ -239,3 +239,157 @@ def edit_sig(R, s, p, md):
 
 def rand_md(R):
     return R.choice([0, 1, 2, 34, 35, 35, 35, 36, 255, R.randrange(0, 256)])
+
+
+# --------------------------------------------------------------------------- wire packets with known signature
+from harness import wire as W  # noqa: E402
+
+
+def rand_options(R, syn_type=True):
+    """Well-formed option list [(kind, value)] and its hex encoding padded to 4 with NOPs or EOL."""
+    r = R.random()
+    if r < 0.6:
+        opts = R.choice([
+            [("mss", None)], [("mss", None), ("sok", None), ("ts", None), ("nop", None), ("ws", None)],
+            [("mss", None), ("nop", None), ("ws", None), ("nop", None), ("nop", None), ("ts", None)],
+            [("mss", None), ("nop", None), ("nop", None), ("sok", None)],
+            [("mss", None), ("nop", None), ("ws", None), ("nop", None), ("nop", None), ("sok", None)],
+            [("mss", None), ("nop", None), ("ws", None), ("sok", None), ("ts", None)],
+            [], [("nop", None), ("nop", None), ("ts", None)], [("mss", None), ("ws", None), ("eol", None)],
+            [("mss", None), ("sok", None), ("eol", None)]])
+        opts = [list(o) for o in opts]
+    else:
+        opts = []
+        for _ in range(R.randint(0, 6)):
+            opts.append([R.choice(["nop", "mss", "ws", "sok", "ts", "sack", "unk", "nop"]), None])
+    out, hexs, used = [], "", 0
+    for k, _ in opts:
+        if k == "eol":
+            continue
+        if k == "mss":
+            v = R.choice([0, 1, 99, 100, 536, 1220, 1360, 1400, 1440, 1460, 8960, 65535, R.randrange(65536)])
+            h = W.o_mss(v)
+        elif k == "ws":
+            v = R.choice([0, 1, 2, 6, 7, 8, 14, 15, 255])
+            h = W.o_ws(v)
+        elif k == "ts":
+            v = (R.choice([0, 1, R.randrange(2 ** 32), 2 ** 32 - 1]), R.choice([0, 0, 0, 1, R.randrange(2 ** 32)]))
+            h = W.o_ts(*v)
+        elif k == "sok":
+            v, h = None, W.o_sok()
+        elif k == "nop":
+            v, h = None, W.o_nop()
+        elif k == "sack":
+            v = R.choice([1, 2, 3, 4])
+            h = W.o_sack(v)
+        else:
+            v = (R.choice([6, 7, 9, 19, 30, 34, 254, 255]), R.choice([2, 3, 4, 6]))
+            h = W.o_unk(*v)
+        if used + len(h) // 2 > 40:
+            break
+        used += len(h) // 2
+        hexs += h
+        out.append((k, v))
+    eol = None
+    want_eol = any(k == "eol" for k, _ in opts) or R.random() < 0.15
+    if want_eol and used < 40:
+        padn = (-(used + 1)) % 4
+        extra = R.choice([0, 0, 4]) if used + 1 + padn + 4 <= 40 else 0
+        nz = R.random() < 0.15 and padn + extra > 0
+        fill = ("00" * (padn + extra)) if not nz else ("00" * (padn + extra - 1) + "5a")
+        hexs += "00" + fill
+        eol = (padn + extra, nz)
+    else:
+        hexs = W.pad4(hexs, "01")
+        out += [("nop", None)] * ((len(hexs) // 2) - used)
+    return out, hexs, eol
+
+
+KIND = {"eol": 0, "nop": 1, "mss": 2, "ws": 3, "sok": 4, "sack": 5, "ts": 8}
+
+
+def rand_wire_pkt(R, flags=None):
+    """Returns (spec for wire.build, expected packet-signature dict, masked type)."""
+    v = R.choice([4, 4, 6])
+    fl = flags if flags is not None else R.choice([2, 2, 0x12, 0x12])
+    extra = R.choice([0, 0, 0, 0x08, 0x20, 0x40, 0xC0, 0x100])
+    fl |= extra
+    ty = fl & 0x17
+    opts, ohex, eol = rand_options(R, ty == 2)
+    ipopts = ("01" * R.choice([4, 8])) if v == 4 and R.random() < 0.1 else ""
+    spec = {"v": v, "ttl": R.choice([0, 1, 31, 32, 33, 53, 60, 63, 64, 65, 127, 128, 129, 200, 254, 255, R.randrange(256)]),
+            "tos": R.choice([0, 0, 0, 1, 2, 3, 0x10, 0xFC]), "id": R.choice([0, 0, 1, R.randrange(65536)]),
+            "df": R.random() < 0.6, "evil": R.random() < 0.05, "ipopts": ipopts,
+            "fl": R.choice([0, 0, 1, R.randrange(2 ** 20)]),
+            "seq": R.choice([0, 1, R.randrange(2 ** 32)]),
+            "ack": (R.choice([0, 1, R.randrange(2 ** 32)]) if (fl & 0x10) else R.choice([0, 0, 0, 0, 5])),
+            "flags": fl, "win": 0, "urg": R.choice([0, 0, 0, 0, 7]), "opts": ohex,
+            "payload": R.choice(["", "", "", "41", "474554202f"])}
+    q = 0
+    if spec["tos"] & 3:
+        q |= 1
+    if v == 4:
+        if spec["evil"]:
+            q |= 1 << 4
+        if spec["df"]:
+            q |= 1 << 1
+            if spec["id"]:
+                q |= 1 << 2
+        elif not spec["id"]:
+            q |= 1 << 3
+    elif spec["fl"]:
+        q |= 1 << 5
+    if fl & 0x1C0:
+        q |= 1
+    if not spec["seq"]:
+        q |= 1 << 6
+    if fl & 0x10:
+        if not spec["ack"]:
+            q |= 1 << 8
+    elif spec["ack"] and not fl & 4:
+        q |= 1 << 7
+    if fl & 0x20:
+        q |= 1 << 10
+    elif spec["urg"]:
+        q |= 1 << 9
+    if fl & 8:
+        q |= 1 << 11
+    mss = ws = ts1 = 0
+    layout = []
+    for k, val in opts:
+        if k == "unk":
+            layout.append(val[0])
+            continue
+        layout.append(KIND[k])
+        if k == "mss":
+            mss = val
+        elif k == "ws":
+            ws = val
+            if ws > 14:
+                q |= 1 << 15
+            else:
+                q &= ~(1 << 15) | (q & (1 << 15))
+        elif k == "ts":
+            ts1 = val[0]
+            if not ts1:
+                q |= 1 << 12
+            if val[1] and ty == 2:
+                q |= 1 << 13
+    eolpad = 0
+    if eol is not None:
+        layout.append(0)
+        eolpad = eol[0]
+        if eol[1]:
+            q |= 1 << 14
+    hdr = (20 + len(ipopts) // 2 if v == 4 else 40) + 20 + len(ohex) // 2
+    p = {"ver": v, "olen": len(ipopts) // 2, "ttl": spec["ttl"], "win": 0, "layout": layout, "mss": mss, "ws": ws, "ts1": ts1,
+         "eol": eolpad, "hdr": hdr, "pay": bool(spec["payload"]), "quirks": q, "syn_mss": 0}
+    return spec, p, ty
+
+
+def aim_window(R, p):
+    cands = [p["mss"], p["mss"] - 12, 1460, 1448, 1440, 1428, p["mss"] + 40, p["mss"] + p["hdr"], p["mss"] + 60, 1500, p["syn_mss"], p["syn_mss"] - 12]
+    d = abs(R.choice(cands))
+    k = R.choice([1, 2, 3, 4, 5, 10, 20, 44])
+    win = R.choice([0, R.randrange(65536), d * k, d * k, d * k, 8192, 65535, 5840, 14600, 29200])
+    return win if 0 <= win <= 65535 else R.randrange(65536)
